@@ -1,7 +1,4 @@
-use std::{
-    collections::{HashMap, HashSet, LinkedList},
-    mem::take,
-};
+use std::collections::{HashMap, HashSet, LinkedList};
 
 use cosmian_crypto_core::{
     bytes_ser_de::Serializable,
@@ -616,26 +613,35 @@ pub fn update_msk(
     msk: &mut MasterSecretKey,
     rights: HashMap<Right, (EncryptionHint, AttributeStatus)>,
 ) -> Result<(), Error> {
-    let mut secrets = take(&mut msk.secrets);
-    secrets.retain(|r| rights.contains_key(r));
-
-    for (r, (hint, status)) in rights {
-        if let Some((is_activated, coordinate_secret)) = secrets.get_latest_mut(&r) {
-            *is_activated = AttributeStatus::EncryptDecrypt == status;
-            if EncryptionHint::Classic == hint {
-                *coordinate_secret = coordinate_secret.drop_hybridization();
-            }
-        } else {
-            if AttributeStatus::DecryptOnly == status {
+    // Generate the secrets of the new rights first: all fallible operations are
+    // performed before modifying the MSK so that it is left untouched upon
+    // failure.
+    let mut new_secrets = HashMap::new();
+    for (r, (hint, status)) in &rights {
+        if !msk.secrets.contains_key(r) {
+            if AttributeStatus::DecryptOnly == *status {
                 return Err(Error::OperationNotPermitted(
                     "cannot add decrypt only secret".to_string(),
                 ));
             }
-            let secret = RightSecretKey::random(rng, EncryptionHint::Hybridized == hint)?;
-            secrets.insert(r, (true, secret));
+            let secret = RightSecretKey::random(rng, EncryptionHint::Hybridized == *hint)?;
+            new_secrets.insert(r.clone(), secret);
         }
     }
-    msk.secrets = secrets;
+
+    msk.secrets.retain(|r| rights.contains_key(r));
+
+    for (r, (hint, status)) in rights {
+        let is_activated = AttributeStatus::EncryptDecrypt == status;
+        if let Some((activation, coordinate_secret)) = msk.secrets.get_latest_mut(&r) {
+            *activation = is_activated;
+            if EncryptionHint::Classic == hint {
+                *coordinate_secret = coordinate_secret.drop_hybridization();
+            }
+        } else if let Some(secret) = new_secrets.remove(&r) {
+            msk.secrets.insert(r, (is_activated, secret));
+        }
+    }
     Ok(())
 }
 
